@@ -148,15 +148,22 @@ Export == (Terminal /\ fl = F0) =>
 ImplRefinesReq == pc = "done" => Range(out) = req /\ Len(out) = Cardinality(req) /\ req = Code(T, fl)
 RaisedIffNotDir == (pc = "raised" => ~RootIsDir(T)) /\ (pc \in {"flat", "walk", "done"} => RootIsDir(T))
 ImplPrefix == pc \in {"flat", "walk"} => Range(out) \subseteq req /\ Len(out) = Cardinality(Range(out))
-\* laws of Req (evaluated once per run)
-AtStart == steps = 1          \* (not on the initial states: TLC computes those single-threaded)
-LawBetween   == AtStart => Must(T, fl) \subseteq Code(T, fl) /\ Code(T, fl) \subseteq Allowed(T, fl)
-LawFinite    == (AtStart /\ fl.rec) => Finite(T, fl.follow)                                   \* no directory deeper than K - 1
-LawTopLevel  == AtStart => Code(T, [fl EXCEPT !.rec = FALSE]) = {p \in Code(T, [fl EXCEPT !.rec = TRUE]) : Len(p) = 1}
-LawStrict    == AtStart => Code(T, [fl EXCEPT !.strict = TRUE]) = {p \in Code(T, [fl EXCEPT !.strict = FALSE]) : Decodable(T, Stat(T, p))}
-LawFollow    == (AtStart /\ ~HasAncestorLink(T)) => Code(T, [fl EXCEPT !.follow = FALSE]) \subseteq Code(T, [fl EXCEPT !.follow = TRUE])
-LawFlatIgnoresFollow == (AtStart /\ ~fl.rec) => Code(T, [fl EXCEPT !.follow = TRUE]) = Code(T, [fl EXCEPT !.follow = FALSE])
-LawDsBetween == AtStart => \A r \in BOOLEAN : DsMust(T, r) \subseteq DsAllowed(T, r)
+\* laws of Req, evaluated once per tree (in the second state of its F0 run: TLC computes initial states single-threaded) on
+\* tables of the three sets for every flag combination of the tree
+Fl(s, r, f) == [strict |-> s, rec |-> r, follow |-> f]
+LawBetween(code, must, allowed) == \A f \in DOMAIN code : must[f] \subseteq code[f] /\ code[f] \subseteq allowed[f]
+LawTopLevel(code) == \A s, f \in BOOLEAN : Fl(s, TRUE, f) \in DOMAIN code => code[Fl(s, FALSE, f)] = {p \in code[Fl(s, TRUE, f)] : Len(p) = 1}
+LawStrict(code)   == \A r, f \in BOOLEAN : Fl(TRUE, r, f) \in DOMAIN code => code[Fl(TRUE, r, f)] = {p \in code[Fl(FALSE, r, f)] : Decodable(T, Stat(T, p))}
+LawFollow(code)   == \A s, r \in BOOLEAN : Fl(s, r, TRUE) \in DOMAIN code => code[Fl(s, r, FALSE)] \subseteq code[Fl(s, r, TRUE)]
+LawFlatIgnoresFollow(code) == \A s \in BOOLEAN : code[Fl(s, FALSE, TRUE)] = code[Fl(s, FALSE, FALSE)]
+LawFinite    == \A f \in FlagsFor(T) : f.rec => Finite(T, f.follow)                          \* no directory deeper than K - 1
+LawDsBetween == \A r \in BOOLEAN : DsMust(T, r) \subseteq DsAllowed(T, r)
+Laws == (steps = 1 /\ fl = F0) =>
+            LET code    == TLCEval([f \in FlagsFor(T) |-> Code(T, f)])
+                must    == TLCEval([f \in FlagsFor(T) |-> Must(T, f)])
+                allowed == TLCEval([f \in FlagsFor(T) |-> Allowed(T, f)])
+            IN  /\ LawBetween(code, must, allowed) /\ LawTopLevel(code) /\ LawStrict(code) /\ LawFollow(code)
+                /\ LawFlatIgnoresFollow(code) /\ LawFinite /\ LawDsBetween
 \* termination: the walk never goes deeper than the bound, every non-terminal state has a step, steps only grow and their number is
 \* exactly 2 + directories visited + entries examined
 WalkBounded == Len(cur) <= MaxWalkDepth /\ Len(stack) <= 8
